@@ -917,4 +917,482 @@ theorem divexact_ui_eq (s : Store) (q n : Nat) (u : Nat) (hu : u ≠ 0) :
   · rename_i h; rw [h]; simp
   · simp only [tdiv_natCast, ge_iff_le, siz_nonneg_iff]
 
+/-! ### congruences -/
+
+/-- NEG_MOD: the result is congruent to -a modulo d (and is a limb) -/
+theorem negMod_spec (a d : Nat) (hd : d ≠ 0) (ha : a < B) (hdB : d < B) : d ∣ negMod a d + a ∧ negMod a d < B := by
+  unfold negMod
+  split
+  · rename_i h
+    constructor
+    · have : d - a + a = d := by omega
+      rw [this]
+    · omega
+  · rename_i h
+    have h1 := Nat.log2_self_le hd
+    have h2 := @Nat.lt_log2_self d
+    have hl : d.log2 < 64 := (Nat.log2_lt hd).mpr (by unfold B at hdB; exact hdB)
+    -- dnorm = d * 2^(63 - log2 d) is in [2^63, 2^64)
+    have e : 2 ^ (d.log2 + 1) * 2 ^ (63 - d.log2) = B := by unfold B; rw [← Nat.pow_add]; congr 1; omega
+    have e' : 2 ^ d.log2 * 2 ^ (63 - d.log2) = B / 2 := by
+      have : 2 ^ d.log2 * 2 ^ (63 - d.log2) = 2 ^ 63 := by rw [← Nat.pow_add]; congr 1; omega
+      rw [this]; unfold B; decide
+    have hp : 0 < 2 ^ (63 - d.log2) := Nat.pow_pos (by decide)
+    have hn1 : d * 2 ^ (63 - d.log2) < B := by rw [← e]; exact Nat.mul_lt_mul_of_pos_right h2 hp
+    have hn2 : B / 2 ≤ d * 2 ^ (63 - d.log2) := by rw [← e']; exact Nat.mul_le_mul_right _ h1
+    have hB : B = 2 * (B / 2) := by unfold B; decide
+    dsimp only
+    generalize hk : 2 ^ (63 - d.log2) = k at *
+    rw [Nat.mod_eq_of_lt hn1]
+    have hdvd : d ∣ d * k := Dvd.intro _ rfl
+    generalize hn : d * k = dn at *
+    split
+    · rename_i h3
+      have : (dn + B - a) % B = dn - a := by
+        have : dn + B - a = (dn - a) + B := by omega
+        rw [this, Nat.add_mod_right, Nat.mod_eq_of_lt (by omega)]
+      rw [this]
+      constructor
+      · have : dn - a + a = dn := by omega
+        rw [this]; exact hdvd
+      · omega
+    · rename_i h3
+      have h4 : (2 * dn) % B = 2 * dn - B := by
+        have : 2 * dn = (2 * dn - B) + B := by omega
+        rw [this, Nat.add_mod_right, Nat.mod_eq_of_lt (by omega)]; omega
+      rw [h4]
+      have : (2 * dn - B + B - a) % B = 2 * dn - a := by
+        have : 2 * dn - B + B - a = 2 * dn - a := by omega
+        rw [this, Nat.mod_eq_of_lt (by omega)]
+      rw [this]
+      constructor
+      · have : 2 * dn - a + a = 2 * dn := by omega
+        rw [this]; exact Dvd.dvd.mul_left hdvd 2
+      · omega
+
+/-- a - c in terms of magnitudes: with s = +1 if the signs agree and -1 otherwise, a - c = ±(|a| - s|c|) -/
+theorem dvd_sub_iff_mag (a c m : Int) :
+    m ∣ a - c ↔ m ∣ (a.natAbs : Int) - (if (a < 0 ↔ c < 0) then (c.natAbs : Int) else -(c.natAbs : Int)) := by
+  split
+  · rename_i h
+    by_cases ha : a < 0
+    · have hc : c < 0 := h.mp ha
+      have : (a.natAbs : Int) - c.natAbs = -(a - c) := by omega
+      rw [this, Int.dvd_neg]
+    · have hc : ¬ c < 0 := fun hc => ha (h.mpr hc)
+      have : (a.natAbs : Int) - c.natAbs = a - c := by omega
+      rw [this]
+  · rename_i h
+    by_cases ha : a < 0
+    · have hc : ¬ c < 0 := fun hc => h ⟨fun _ => hc, fun _ => ha⟩
+      have : (a.natAbs : Int) - -(c.natAbs : Int) = -(a - c) := by omega
+      rw [this, Int.dvd_neg]
+    · have hc : c < 0 := by
+        by_contra hc; exact h ⟨fun h1 => absurd h1 ha, fun h1 => absurd h1 hc⟩
+      have : (a.natAbs : Int) - -(c.natAbs : Int) = a - c := by omega
+      rw [this]
+
+/-- signed magnitude of c relative to a: +C if the signs agree, -C otherwise -/
+def sgnC (same : Prop) [Decidable same] (C : Nat) : Int := if same then (C : Int) else -(C : Int)
+
+theorem nat_mod_eq_zero_iff_int_dvd (x m : Nat) : x % m = 0 ↔ (m : Int) ∣ (x : Int) := by
+  rw [Int.natCast_dvd_natCast, Nat.dvd_iff_mod_eq_zero]
+
+theorem B_dvd_negLow (A : Nat) : (B : Int) ∣ (((B - A % B) % B : Nat) : Int) + (A : Int) := by
+  have hB : 0 < B := by unfold B; decide
+  have hr : A % B < B := Nat.mod_lt _ hB
+  have hd : (B : Int) ∣ (A : Int) - ((A % B : Nat) : Int) := by
+    rw [Int.natCast_emod]; exact Int.dvd_self_sub_emod
+  by_cases h0 : A % B = 0
+  · rw [h0] at hd ⊢; simp at hd ⊢; exact hd
+  · rw [Nat.mod_eq_of_lt (by omega)]
+    have : (((B - A % B : Nat)) : Int) + (A : Int) = (B : Int) + ((A : Int) - ((A % B : Nat) : Int)) := by omega
+    rw [this]; exact Int.dvd_add (Int.dvd_refl _) hd
+
+/-- the low-bits quick rejection of cong.c:91-94 and cong_ui.c:98 -/
+theorem quick_iff (same : Prop) [Decidable same] (A C m : Nat) (hmB : m ∣ B) :
+    (((if same then A % B else (B - A % B) % B) + B - C % B) % B) % m = 0 ↔ (m : Int) ∣ (A : Int) - sgnC same C := by
+  have hB : 0 < B := by unfold B; decide
+  have hc : C % B < B := Nat.mod_lt _ hB
+  rw [Nat.mod_mod_of_dvd _ hmB, nat_mod_eq_zero_iff_int_dvd]
+  have hmB' : (m : Int) ∣ (B : Int) := Int.natCast_dvd_natCast.mpr hmB
+  have hC : (B : Int) ∣ (C : Int) - ((C % B : Nat) : Int) := by rw [Int.natCast_emod]; exact Int.dvd_self_sub_emod
+  have hA : (B : Int) ∣ (A : Int) - ((A % B : Nat) : Int) := by rw [Int.natCast_emod]; exact Int.dvd_self_sub_emod
+  unfold sgnC
+  by_cases hs : same
+  · simp only [hs, if_true]
+    apply Int.dvd_iff_dvd_of_dvd_sub
+    have : ((A % B + B - C % B : Nat) : Int) - ((A : Int) - (C : Int)) =
+        (B : Int) - ((A : Int) - ((A % B : Nat) : Int)) + ((C : Int) - ((C % B : Nat) : Int)) := by omega
+    rw [this]
+    exact Int.dvd_trans hmB' (Int.dvd_add (Int.dvd_sub (Int.dvd_refl _) hA) hC)
+  · simp only [hs, if_false]
+    have hN := B_dvd_negLow A
+    rw [← Int.dvd_neg (b := (A : Int) - -(C : Int))]
+    apply Int.dvd_iff_dvd_of_dvd_sub
+    have : (((B - A % B) % B + B - C % B : Nat) : Int) - -((A : Int) - -(C : Int)) =
+        ((((B - A % B) % B : Nat) : Int) + (A : Int)) + (B : Int) + ((C : Int) - ((C % B : Nat) : Int)) := by omega
+    rw [this]
+    exact Int.dvd_trans hmB' (Int.dvd_add (Int.dvd_add hN (Int.dvd_refl _)) hC)
+
+/-- |a - c| as computed by cong.c:151-168 -/
+theorem general_iff (same : Prop) [Decidable same] (A C D : Nat) :
+    mpn_divisible_p (if same then (if A ≥ C then A - C else C - A) else A + C) D = true ↔
+      (D : Int) ∣ (A : Int) - sgnC same C := by
+  unfold mpn_divisible_p sgnC
+  rw [mod_eq_zero_beq, ← Int.natCast_dvd_natCast]
+  by_cases hs : same
+  · simp only [hs, if_true]
+    split
+    · have : ((A - C : Nat) : Int) = (A : Int) - C := by omega
+      rw [this]
+    · have : ((C - A : Nat) : Int) = -((A : Int) - C) := by omega
+      rw [this, Int.dvd_neg]
+  · simp only [hs, if_false]
+    have : ((A + C : Nat) : Int) = (A : Int) - -(C : Int) := by omega
+    rw [this]
+
+/-- the `cong_1` block of cong.c:100-125 (and the tail of cong_ui.c), as it appears inside the models -/
+def cong1 (same : Prop) [Decidable same] (thr asize A : Nat) (dlow clow : Nat) : Bool :=
+  let clow := if same then clow else negMod clow dlow
+  if asize < thr then
+    let r := mpn_mod_1 A dlow
+    if clow < dlow then r == clow else r == clow % dlow
+  else
+    let dlow := if dlow % 2 = 0 then dlow / 2 ^ ctz dlow else dlow
+    modexact_1c_odd_divides A dlow clow
+
+theorem nat_mod_eq_iff (A c D : Nat) : A % D = c % D ↔ (D : Int) ∣ (A : Int) - (c : Int) := by
+  rw [Int.dvd_iff_emod_eq_zero, ← Int.emod_eq_emod_iff_emod_sub_eq_zero, ← Int.natCast_emod, ← Int.natCast_emod]
+  exact Int.natCast_inj.symm
+
+theorem int_coprime_mul_dvd {p q : Nat} (hc : Nat.Coprime p q) {x : Int} (hp : (p : Int) ∣ x) (hq : (q : Int) ∣ x) :
+    ((p * q : Nat) : Int) ∣ x := by
+  rw [Int.natCast_dvd] at *
+  exact Nat.Coprime.mul_dvd_of_dvd_of_dvd hc hp hq
+
+theorem cong1_iff (same : Prop) [Decidable same] (thr asize A D1 cl : Nat) (hD0 : D1 ≠ 0) (hDB : D1 < B) (hcl : cl < B)
+    (hq : ((2 ^ ctz D1 : Nat) : Int) ∣ (A : Int) - sgnC same cl) :
+    cong1 same thr asize A D1 cl = true ↔ (D1 : Int) ∣ (A : Int) - sgnC same cl := by
+  unfold cong1
+  -- the adjusted c is congruent to ±c modulo D1
+  have hF : (D1 : Int) ∣ ((if same then cl else negMod cl D1 : Nat) : Int) - sgnC same cl := by
+    unfold sgnC
+    by_cases hs : same
+    · simp [hs]
+    · simp only [hs, if_false]
+      have := (negMod_spec cl D1 hD0 hcl hDB).1
+      have h2 : ((negMod cl D1 : Nat) : Int) - -(cl : Int) = ((negMod cl D1 + cl : Nat) : Int) := by omega
+      rw [h2]; exact Int.natCast_dvd_natCast.mpr this
+  generalize (if same then cl else negMod cl D1) = cl' at *
+  have hswap : ∀ D2 : Nat, D2 ∣ D1 → (((D2 : Int) ∣ (A : Int) - (cl' : Int)) ↔ (D2 : Int) ∣ (A : Int) - sgnC same cl) := by
+    intro D2 h2
+    apply Int.dvd_iff_dvd_of_dvd_sub
+    have : (A : Int) - (cl' : Int) - ((A : Int) - sgnC same cl) = -((cl' : Int) - sgnC same cl) := by omega
+    rw [this, Int.dvd_neg]
+    exact Int.dvd_trans (Int.natCast_dvd_natCast.mpr h2) hF
+  dsimp only
+  split
+  · -- mpn_mod_1 branch
+    unfold mpn_mod_1
+    rw [← hswap D1 (Nat.dvd_refl _), ← nat_mod_eq_iff]
+    split
+    · rename_i h; rw [beq_iff_eq, Nat.mod_eq_of_lt h]
+    · rw [beq_iff_eq]
+  · -- modexact branch
+    unfold modexact_1c_odd_divides
+    rw [beq_iff_eq, ← Int.dvd_iff_emod_eq_zero]
+    split
+    · rename_i _ heven
+      obtain ⟨c1, c2⟩ := ctz_spec D1 hD0
+      have hcop := coprime_two_pow_odd (ctz D1) _ c2
+      have hpos : 0 < 2 ^ ctz D1 := Nat.pow_pos (by decide)
+      generalize 2 ^ ctz D1 = p at *
+      obtain ⟨D2, hD2⟩ := c1
+      have hdd : D1 / p = D2 := by rw [hD2]; exact Nat.mul_div_cancel_left _ hpos
+      rw [hdd] at hcop ⊢
+      rw [hswap D2 (Dvd.intro_left _ hD2.symm)]
+      constructor
+      · intro h; rw [hD2]; exact int_coprime_mul_dvd hcop hq h
+      · intro h; exact Int.dvd_trans (Int.natCast_dvd_natCast.mpr (Dvd.intro_left _ hD2.symm)) h
+    · exact hswap D1 (Nat.dvd_refl _)
+
+theorem two_pow_ctz_dvd_B {d : Nat} (hd : d ≠ 0) (hdB : d < B) : 2 ^ ctz d ∣ B := by
+  obtain ⟨c1, _⟩ := ctz_spec d hd
+  have hle : 2 ^ ctz d ≤ d := Nat.le_of_dvd (by omega) c1
+  have : ctz d < 64 := by
+    by_contra hge
+    have : 2 ^ 64 ≤ 2 ^ ctz d := Nat.pow_le_pow_right (by decide) (by omega)
+    unfold B at hdB; omega
+  unfold B; exact Nat.pow_dvd_pow 2 (by omega)
+
+theorem congruent_ui_p_iff' (thr : Nat) (a : Int) (cu du : Nat) (hcB : cu < B) (hdB : du < B) :
+    congruent_ui_p thr a cu du = true ↔ (du : Int) ∣ a - (cu : Int) := by
+  unfold congruent_ui_p
+  by_cases hd : du = 0
+  · subst hd
+    simp only [if_true, decide_eq_true_eq, Int.natCast_zero, Int.zero_dvd]; omega
+  · simp only [hd, if_false, siz_eq_zero]
+    by_cases ha : a = 0
+    · subst ha
+      simp only [if_true, Int.zero_sub, Int.dvd_neg, Int.natCast_dvd_natCast]
+      split
+      · rename_i h
+        rw [decide_eq_true_eq]
+        constructor
+        · intro h0; rw [h0]; exact Nat.dvd_zero _
+        · intro h0; exact Nat.eq_zero_of_dvd_of_lt h0 h
+      · rw [decide_eq_true_eq, Nat.dvd_iff_mod_eq_zero]
+    · simp only [ha, if_false]
+      rw [dvd_sub_iff_mag a cu du]
+      have hcn : ¬ ((cu : Int) < 0) := by omega
+      simp only [hcn, iff_false, Int.natAbs_natCast]
+      change _ ↔ (du : Int) ∣ (a.natAbs : Int) - sgnC (¬ a < 0) cu
+      have hsz : siz a < 0 ↔ a < 0 := siz_neg_iff
+      -- the adjusted c is congruent to ±cu modulo du
+      have hF : (du : Int) ∣ ((if siz a < 0 then negMod cu du else cu : Nat) : Int) - sgnC (¬ a < 0) cu := by
+        unfold sgnC
+        by_cases hs : a < 0
+        · have := (negMod_spec cu du hd hcB hdB).1
+          simp only [hsz.mpr hs, if_true, hs, not_true_eq_false, if_false]
+          have h2 : ((negMod cu du : Nat) : Int) - -(cu : Int) = ((negMod cu du + cu : Nat) : Int) := by omega
+          rw [h2]; exact Int.natCast_dvd_natCast.mpr this
+        · have : ¬ siz a < 0 := fun h => hs (hsz.mp h)
+          simp [this, hs]
+      have hcB' : (if siz a < 0 then negMod cu du else cu) < B := by
+        split
+        · exact (negMod_spec cu du hd hcB hdB).2
+        · exact hcB
+      generalize (if siz a < 0 then negMod cu du else cu) = c' at *
+      generalize a.natAbs = A at *
+      have hswap : ∀ D2 : Nat, D2 ∣ du → (((D2 : Int) ∣ (A : Int) - (c' : Int)) ↔ (D2 : Int) ∣ (A : Int) - sgnC (¬ a < 0) cu) := by
+        intro D2 h2
+        apply Int.dvd_iff_dvd_of_dvd_sub
+        have : (A : Int) - (c' : Int) - ((A : Int) - sgnC (¬ a < 0) cu) = -((c' : Int) - sgnC (¬ a < 0) cu) := by omega
+        rw [this, Int.dvd_neg]
+        exact Int.dvd_trans (Int.natCast_dvd_natCast.mpr h2) hF
+      split
+      · unfold mpn_mod_1
+        rw [← hswap du (Nat.dvd_refl _), ← nat_mod_eq_iff]
+        split
+        · rename_i h; rw [beq_iff_eq, Nat.mod_eq_of_lt h]
+        · rw [beq_iff_eq]
+      · split
+        · -- even divisor: low-bits test, then modexact on the odd part
+          obtain ⟨c1, c2⟩ := ctz_spec du hd
+          have hcop := coprime_two_pow_odd (ctz du) _ c2
+          have hpB := two_pow_ctz_dvd_B hd hdB
+          have hlz : lowZerosMod du = 2 ^ ctz du := by unfold lowZerosMod; simp [hd]
+          have hpos : 0 < 2 ^ ctz du := Nat.pow_pos (by decide)
+          rw [hlz]
+          generalize 2 ^ ctz du = p at *
+          obtain ⟨D2, hD2⟩ := c1
+          have hdd : du / p = D2 := by rw [hD2]; exact Nat.mul_div_cancel_left _ hpos
+          rw [hdd] at hcop ⊢
+          have hq := quick_iff True A c' p hpB
+          simp only [if_true, Nat.mod_eq_of_lt hcB', sgnC] at hq
+          split
+          · rename_i hne
+            constructor
+            · intro h; exact absurd h (by simp)
+            · intro h
+              have h1 : (p : Int) ∣ (A : Int) - (c' : Int) :=
+                (hswap p (Dvd.intro _ hD2.symm)).mpr (Int.dvd_trans (Int.natCast_dvd_natCast.mpr (Dvd.intro _ hD2.symm)) h)
+              exact absurd (hq.mpr h1) hne
+          · rename_i hne
+            simp only [ne_eq, not_not] at hne
+            have h1 : (p : Int) ∣ (A : Int) - (c' : Int) := hq.mp hne
+            unfold modexact_1c_odd_divides
+            rw [beq_iff_eq, ← Int.dvd_iff_emod_eq_zero, ← hswap du (Nat.dvd_refl _)]
+            constructor
+            · intro h; rw [hD2]; exact int_coprime_mul_dvd hcop h1 h
+            · intro h; exact Int.dvd_trans (Int.natCast_dvd_natCast.mpr (Dvd.intro_left _ hD2.symm)) h
+        · unfold modexact_1c_odd_divides
+          rw [beq_iff_eq, ← Int.dvd_iff_emod_eq_zero]
+          exact hswap du (Nat.dvd_refl _)
+
+theorem lowZerosMod_dvd (D : Nat) (hD : D ≠ 0) : lowZerosMod (D % B) ∣ B ∧ lowZerosMod (D % B) ∣ D := by
+  have hB : 0 < B := by unfold B; decide
+  unfold lowZerosMod
+  split
+  · rename_i h; exact ⟨Nat.dvd_refl _, Nat.dvd_of_mod_eq_zero h⟩
+  · rename_i h
+    have hlt : D % B < B := Nat.mod_lt _ hB
+    have h1 := two_pow_ctz_dvd_B h hlt
+    obtain ⟨c1, _⟩ := ctz_spec (D % B) h
+    refine ⟨h1, ?_⟩
+    generalize 2 ^ ctz (D % B) = p at *
+    rw [← Nat.div_add_mod D B]
+    exact Nat.dvd_add (Nat.dvd_trans h1 (Dvd.intro _ rfl)) c1
+
+theorem ctz_odd {n : Nat} (h : n % 2 = 1) : ctz n = 0 := by
+  unfold ctz
+  have : n ≠ 0 := by omega
+  simp [this, h]
+
+/-- a two-limb divisor whose odd part fits a limb (cong.c:130-144) -/
+theorem two_limb_odd_part {D : Nat} (hlow : D % B ≠ 0) (hsec : D / B ≤ 2 ^ ctz (D % B) - 1) :
+    ∃ D1, D / 2 ^ ctz (D % B) = D1 ∧ D = 2 ^ ctz (D % B) * D1 ∧ D1 % 2 = 1 ∧ D1 < B ∧ D1 ≠ 0 := by
+  have hB : 0 < B := by unfold B; decide
+  have hlt : D % B < B := Nat.mod_lt _ hB
+  obtain ⟨c1, c2⟩ := ctz_spec (D % B) hlow
+  have hpB := two_pow_ctz_dvd_B hlow hlt
+  have hpos : 0 < 2 ^ ctz (D % B) := Nat.pow_pos (by decide)
+  have ht : ctz (D % B) < 64 := by
+    have hle : 2 ^ ctz (D % B) ≤ D % B := Nat.le_of_dvd (by omega) c1
+    by_contra hge
+    have : 2 ^ 64 ≤ 2 ^ ctz (D % B) := Nat.pow_le_pow_right (by decide) (by omega)
+    have hBv : B = 2 ^ 64 := rfl
+    omega
+  generalize ctz (D % B) = t at *
+  have hBsplit : B = 2 ^ t * (2 * 2 ^ (63 - t)) := by
+    have hBv : B = 2 ^ 64 := rfl
+    rw [hBv, ← Nat.pow_succ', ← Nat.pow_add]; congr 1; omega
+  generalize hp : 2 ^ t = p at *
+  generalize 2 ^ (63 - t) = e at *
+  obtain ⟨o, ho⟩ := c1
+  have hoo : D % B / p = o := by rw [ho]; exact Nat.mul_div_cancel_left _ hpos
+  rw [hoo] at c2
+  have hD : D = p * (D / B * (2 * e) + o) := by
+    have := Nat.div_add_mod D B
+    calc D = B * (D / B) + D % B := this.symm
+      _ = p * (2 * e) * (D / B) + p * o := by rw [← hBsplit, ho]
+      _ = p * (D / B * (2 * e) + o) := by ring
+  refine ⟨D / B * (2 * e) + o, ?_, hD, ?_, ?_, ?_⟩
+  · conv_lhs => rw [hD]
+    exact Nat.mul_div_cancel_left _ hpos
+  · have : D / B * (2 * e) = 2 * (D / B * e) := by ring
+    rw [this]; omega
+  · have h1 : D / B * (2 * e) + o < p * (2 * e) := by
+      have : o < 2 * e := by
+        have : p * o < p * (2 * e) := by rw [← ho, ← hBsplit]; exact hlt
+        exact Nat.lt_of_mul_lt_mul_left this
+      have h3 : (D / B + 1) * (2 * e) ≤ p * (2 * e) := Nat.mul_le_mul_right _ (by omega)
+      have : (D / B + 1) * (2 * e) = D / B * (2 * e) + 2 * e := by ring
+      omega
+    exact Nat.lt_of_lt_of_eq h1 hBsplit.symm
+  · omega
+
+theorem sizeNat_eq_one {v : Nat} : sizeNat v = 1 ↔ v ≠ 0 ∧ v < B := by
+  have h1 := sizeNat_le_iff v 1
+  have h0 := @sizeNat_eq_zero v
+  rw [Nat.pow_one] at h1
+  omega
+
+theorem sizeNat_eq_two {v : Nat} (h : sizeNat v = 2) : v / B < B := by
+  have h2 := (sizeNat_le_iff v 2).mp (by omega)
+  have hB : 0 < B := by unfold B; decide
+  rw [Nat.div_lt_iff_lt_mul hB]
+  have : B ^ 2 = B * B := by ring
+  omega
+
+/-- body of mpz_congruent_p after the d = 0 test and the operand swap -/
+theorem cong_body_iff (thr : Nat) (a c d : Int) (hd : d ≠ 0) :
+    (let dsize := (siz d).natAbs
+     let dp := d.natAbs
+     let sign_nonneg := sameSign (siz a) (siz c)
+     let asize := (siz a).natAbs
+     let ap := a.natAbs
+     if siz c = 0 then mpn_divisible_p ap dp else
+     let csize := (siz c).natAbs
+     let cp := c.natAbs
+     let alow0 := ap % B
+     let clow := cp % B
+     let dlow := dp % B
+     let dmaskMod := lowZerosMod dlow
+     let alow := if sign_nonneg then alow0 else (B - alow0) % B
+     if ((alow + B - clow) % B) % dmaskMod ≠ 0 then false else
+     let cong_1 (dlow clow : Nat) : Bool :=
+       let clow := if sign_nonneg then clow else negMod clow dlow
+       if asize < thr then
+         let r := mpn_mod_1 ap dlow
+         if clow < dlow then r == clow else r == clow % dlow
+       else
+         let dlow := if dlow % 2 = 0 then dlow / 2 ^ ctz dlow else dlow
+         modexact_1c_odd_divides ap dlow clow
+     let general : Bool :=
+       let x := if sign_nonneg then (if ap ≥ cp then ap - cp else cp - ap) else ap + cp
+       mpn_divisible_p x dp
+     if csize = 1 then
+       if dsize = 1 then cong_1 dlow clow
+       else if dsize = 2 ∧ dlow ≠ 0 then
+         let dsecond := dp / B % B
+         if dsecond ≤ dmaskMod - 1 then cong_1 (dp / 2 ^ ctz dlow) clow
+         else general
+       else general
+     else general) = true ↔ d ∣ a - c := by
+  rw [dvd_sub_iff_mag a c d, ← Int.natAbs_dvd]
+  change _ ↔ (d.natAbs : Int) ∣ (a.natAbs : Int) - sgnC (a < 0 ↔ c < 0) c.natAbs
+  have hD : d.natAbs ≠ 0 := by omega
+  have hB : 0 < B := by unfold B; decide
+  dsimp only
+  simp only [siz_natAbs, siz_eq_zero, sameSign_siz]
+  generalize d.natAbs = D at *
+  generalize a.natAbs = A
+  by_cases hc : c = 0
+  · subst hc
+    simp only [if_true]
+    unfold mpn_divisible_p sgnC
+    rw [mod_eq_zero_beq, ← Int.natCast_dvd_natCast]
+    simp
+  · have hC : c.natAbs ≠ 0 := by omega
+    simp only [hc, if_false]
+    generalize c.natAbs = C at *
+    obtain ⟨hmB, hmD⟩ := lowZerosMod_dvd D hD
+    have hq := quick_iff (a < 0 ↔ c < 0) A C _ hmB
+    have hgen := general_iff (a < 0 ↔ c < 0) A C D
+    by_cases hquick : ((((if (a < 0 ↔ c < 0) then A % B else (B - A % B) % B) + B - C % B) % B) % lowZerosMod (D % B)) = 0
+    · have hqm := hq.mp hquick
+      simp only [hquick, ne_eq, not_true_eq_false, if_false]
+      by_cases hcs : sizeNat C = 1
+      · have hCB : C < B := (sizeNat_eq_one.mp hcs).2
+        simp only [hcs, if_true, Nat.mod_eq_of_lt hCB]
+        by_cases hds : sizeNat D = 1
+        · have hDB : D < B := (sizeNat_eq_one.mp hds).2
+          simp only [hds, if_true, Nat.mod_eq_of_lt hDB] at hqm ⊢
+          have hlz : lowZerosMod D = 2 ^ ctz D := by unfold lowZerosMod; simp [hD]
+          rw [hlz] at hqm
+          exact cong1_iff (a < 0 ↔ c < 0) thr (sizeNat A) A D C hD hDB hCB hqm
+        · simp only [hds, if_false]
+          by_cases hd2 : sizeNat D = 2 ∧ D % B ≠ 0
+          · have hsec : D / B % B = D / B := Nat.mod_eq_of_lt (sizeNat_eq_two hd2.1)
+            have hlz : lowZerosMod (D % B) = 2 ^ ctz (D % B) := by unfold lowZerosMod; simp [hd2.2]
+            simp only [hd2, and_self, if_true, hsec, hlz, ne_eq, not_false_eq_true] at hqm ⊢
+            by_cases hsm : D / B ≤ 2 ^ ctz (D % B) - 1
+            · simp only [hsm, if_true]
+              obtain ⟨D1, e1, e2, hodd, hD1B, hD10⟩ := two_limb_odd_part hd2.2 hsm
+              rw [e1]
+              have h1 := cong1_iff (a < 0 ↔ c < 0) thr (sizeNat A) A D1 C hD10 hD1B hCB (by rw [ctz_odd hodd]; simp)
+              refine Iff.trans h1 ?_
+              have hcop := coprime_two_pow_odd (ctz (D % B)) D1 hodd
+              constructor
+              · intro h; rw [e2]; exact int_coprime_mul_dvd hcop hqm h
+              · intro h; exact Int.dvd_trans (Int.natCast_dvd_natCast.mpr (Dvd.intro_left _ e2.symm)) h
+            · simp only [hsm, if_false]; exact hgen
+          · simp only [hd2, if_false]; exact hgen
+      · simp only [hcs, if_false]; exact hgen
+    · simp only [hquick, ne_eq, not_false_eq_true, if_true]
+      constructor
+      · intro h; exact absurd h (by simp)
+      · intro h
+        exact absurd (hq.mpr (Int.dvd_trans (Int.natCast_dvd_natCast.mpr hmD) h)) hquick
+
+theorem congruent_p_iff' (thr : Nat) (a0 c0 d : Int) : congruent_p thr a0 c0 d = true ↔ d ∣ a0 - c0 := by
+  unfold congruent_p
+  by_cases hd : d = 0
+  · subst hd
+    have : siz 0 = 0 := siz_eq_zero.mpr rfl
+    rw [if_pos this, decide_eq_true_eq, Int.zero_dvd]; omega
+  · have hsd : ¬ siz d = 0 := fun h => hd (siz_eq_zero.mp h)
+    rw [if_neg hsd]
+    by_cases hsw : (siz a0).natAbs < (siz c0).natAbs
+    · simp only [hsw, if_true]
+      have e : d ∣ a0 - c0 ↔ d ∣ c0 - a0 := by
+        rw [← Int.dvd_neg]; have : -(a0 - c0) = c0 - a0 := by omega
+        rw [this]
+      rw [e]
+      exact cong_body_iff thr c0 a0 d hd
+    · simp only [hsw, if_false]
+      exact cong_body_iff thr a0 c0 d hd
+
 end Mpir.DivZ
